@@ -143,9 +143,20 @@ func readBy(r io.Reader, n int) ([]byte, error) {
 
 func streamAccept(s tink.StreamingAEAD) acceptFn {
 	return func(out, _ []byte) (bool, string) {
-		var verdicts [3]bool
-		for mode, size := range []int{1, len(out) + 64, 7} {
-			r, err := s.NewDecryptingReader(bytes.NewReader(out), aad)
+		var verdicts [4]bool
+		for mode, size := range []int{1, len(out) + 64, 7, 5} {
+			var src io.Reader = bytes.NewReader(out)
+			if mode == 3 {
+				// the ciphertext source is a seekable reader that is NOT at its origin (a file with a preamble in
+				// front of the stream): the stream is what Read yields from the current position onwards
+				pre := []byte("preamble-13b\n")
+				rs := bytes.NewReader(append(bytes.Clone(pre), out...))
+				if _, err := rs.Seek(int64(len(pre)), io.SeekStart); err != nil {
+					continue
+				}
+				src = rs
+			}
+			r, err := s.NewDecryptingReader(src, aad)
 			if err != nil {
 				continue
 			}
@@ -164,8 +175,8 @@ func streamAccept(s tink.StreamingAEAD) acceptFn {
 			}
 			verdicts[mode] = true
 		}
-		if verdicts[0] != verdicts[1] || verdicts[0] != verdicts[2] {
-			return verdicts[0], fmt.Sprintf("read size 1 accepts=%v, read size 'all' accepts=%v, empty read then size 7 accepts=%v", verdicts[0], verdicts[1], verdicts[2])
+		if verdicts[0] != verdicts[1] || verdicts[0] != verdicts[2] || verdicts[0] != verdicts[3] {
+			return verdicts[0], fmt.Sprintf("read size 1 accepts=%v, read size 'all' accepts=%v, empty read then size 7 accepts=%v, seekable source positioned behind a preamble (read size 5) accepts=%v", verdicts[0], verdicts[1], verdicts[2], verdicts[3])
 		}
 		return verdicts[0], ""
 	}
